@@ -435,6 +435,25 @@ func runC01(c *eng.Ctx) {
 				if g == nil || g.Pkg == nil {
 					return false, "result of " + p.Desc(x)
 				}
+				if strings.HasPrefix(p.FuncKey(g), "pkg/bufioutil.") && g.Blocks != nil && len(seen) < 40 {
+					// a helper of the reader: every error it can return must keep its identity
+					nr := 0
+					for _, b := range g.Blocks {
+						r, ok := b.Instrs[len(b.Instrs)-1].(*ssa.Return)
+						if !ok {
+							continue
+						}
+						for _, res := range r.Results {
+							if isErrorType(res.Type()) {
+								nr++
+								if ok, why := leafOK(res, seen); !ok {
+									return false, why
+								}
+							}
+						}
+					}
+					return nr > 0, "helper " + g.Name() + " returns no error"
+				}
 				switch g.Pkg.Pkg.Path() + "." + g.Name() {
 				case "io.ReadFull", "encoding/binary.ReadUvarint", "io.ReadAtLeast":
 					return true, ""
@@ -460,7 +479,7 @@ func runC01(c *eng.Ctx) {
 	c.Rule("PROV", "kv.store.CreateFamily{id of a new family = next value of the store's sequence}", func() {
 		f := c.Fn("kv.store.CreateFamily")
 		n := 0
-		for _, b := range f.Blocks {
+		for _, b := range eng.BlocksT(f) {
 			for _, in := range b.Instrs {
 				st, ok := in.(*ssa.Store)
 				if !ok {
@@ -474,7 +493,7 @@ func runC01(c *eng.Ctx) {
 				fromSeq := eng.DependsOnField(st.Val, "kv.store.familySeq")
 				fromArg := eng.DependsOnField(st.Val, "kv.FamilyOption.ID")
 				c.Check(fromSeq && !fromArg, fmt.Sprintf("id-from-sequence[%d]", n), in, f, "the id written into the store info is taken from s.familySeq", "stores "+p.Desc(st.Val))
-				conds, _ := eng.GuardingConds(f, in)
+				conds, _ := eng.GuardingConds(in.Parent(), in)
 				for _, cd := range conds {
 					c.Check(!eng.DependsOnField(cd, "kv.FamilyOption.ID"), fmt.Sprintf("id-not-optional[%d]", n), in, f,
 						"whether a new family gets a fresh id does not depend on the id in the option the caller passed: rollup creates target families with the SOURCE family's option (id included), and the manifest keys every record by family id",
